@@ -65,6 +65,7 @@ type c10Result struct {
 	BarrierMet     int    `json:"barrier_met"`
 	BarrierTimeout int    `json:"barrier_timeouts"`
 	ForcedTrials   int    `json:"forced_trials"`
+	BurstTrials    int    `json:"burst_trials"`
 	OrderSig       string `json:"order_sig"`
 	QuiescentRegs  int    `json:"quiescent_registers"`
 	DurationMs     int64  `json:"duration_ms"`
@@ -240,6 +241,7 @@ func C10(r *core.Run) {
 			r.Add("reads_overlapping_a_write_of_the_same_cookie", res.Overlaps)
 			r.Add("quiescent_registers_compared", res.QuiescentRegs)
 			r.Add("forced_first_use_trials", res.ForcedTrials)
+			r.Add("forced_first_use_bursts", res.BurstTrials)
 			r.Add("forced_barrier_meetings", res.BarrierMet)
 			r.Add("forced_barrier_timeouts", res.BarrierTimeout)
 			r.Max("max_in_flight", res.MaxInFlight)
